@@ -25,6 +25,8 @@ case "$CFG" in
   scalar-assert) FEAT="--features scalar-math,glam-assert" ;;
   interop)   FEAT="--features serde,bytemuck,mint,rkyv,approx,rand" ;;
   interop-scalar) FEAT="--features serde,bytemuck,mint,rkyv,approx,rand,scalar-math" ;;
+  interop-coresimd) FEAT="--features serde,bytemuck,mint,rkyv,approx,rand,core-simd" ;;
+  interop-cuda) FEAT="--features serde,bytemuck,mint,rkyv,approx,rand,cuda" ;;
   neon)      TARGET="--target aarch64-unknown-linux-gnu"; ZSTD="-Zbuild-std=core"; FEAT="--no-default-features --features libm" ;;
   wasm32)    TARGET="--target wasm32-unknown-emscripten"; ZSTD="-Zbuild-std=core"; FEAT="--no-default-features --features libm"; EXTRA="-Ctarget-feature=+simd128" ;;
   wasm32-scalar) TARGET="--target wasm32-unknown-emscripten"; ZSTD="-Zbuild-std=core"; FEAT="--no-default-features --features libm,scalar-math" ;;
